@@ -94,6 +94,8 @@ structure State where
   `{default_timeout, gov_contract}`.  The current `Config` type is `deny_unknown_fields`, so
   `CONFIG.load` of the current code fails on it; `v1::CONFIG.load` succeeds only on it. -/
   v1gov : Option Addr := none
+  /-- cw-controllers `ADMIN` (`Item<Option<Addr>>`); the contract only ever stores `Some(addr)`,
+  so `none` here means: the item is absent (pre-0.12 layout) and `ADMIN.get` fails. -/
   admin : Option Addr
   /-- `ALLOW_LIST`: token ↦ optional gas limit -/
   allow : AMap Addr (Option Nat)
@@ -421,9 +423,15 @@ def queryChannel (s : State) (id : String) : Res (List (String × ChanState)) :=
 /-- `Config{}`: `(default_timeout, default_gas_limit, gov_contract)` -/
 def queryConfig (s : State) : Res (Nat × Option Nat × String) := do
   let cfg ← loadConfig s
-  pure (cfg.defaultTimeout, cfg.defaultGasLimit, s.admin.getD "")
+  match s.admin with
+  | none => .error "admin.absent"
+  | some a => pure (cfg.defaultTimeout, cfg.defaultGasLimit, a)
 
-def queryAdmin (s : State) : Option Addr := s.admin
+/-- `Admin{}`: `ADMIN.get` is `Item::load`, which fails when the item is absent. -/
+def queryAdmin (s : State) : Res Addr :=
+  match s.admin with
+  | none => .error "admin.absent"
+  | some a => .ok a
 
 /-- `Allowed{contract}`: `(is_allowed, gas_limit)` -/
 def queryAllowed (s : State) (c : AddrArg) : Res (Bool × Option Nat) := do
